@@ -39,8 +39,14 @@ func compareTraces(a, b []BlockTrace) string {
 
 func TestC11(t *testing.T) {
 	st := StatsFor("C11")
-	crossProcess := os.Getenv("VERIF_TIER") == "thorough"
-	nCross := 0
+	// a replica in a second OS process (fresh hash seeds, fresh package-level state such as values
+	// captured from time.Now() at start-up): 1 history per shard in the quick tier, 4 in thorough,
+	// plus every history that carried a proposal without start time (up to 3 / 12)
+	maxCross, maxCrossZero := 1, 3
+	if os.Getenv("VERIF_TIER") == "thorough" {
+		maxCross, maxCrossZero = 4, 12
+	}
+	nCross, nCrossZero := 0, 0
 	rapid.Check(t, func(t *rapid.T) {
 		g := GenABCIGenesis(t)
 		d := newABCIDriver(t, g)
@@ -64,8 +70,15 @@ func TestC11(t *testing.T) {
 		}
 		st.Count("tx_log_differences_not_compared", int64(logDiffs))
 		// thorough: a second OS process (fresh map seeds, ASLR) replays a few histories
-		if crossProcess && nCross < 3 {
+		doCross := false
+		if d.zeroStart > 0 && d.passed > 0 && nCrossZero < maxCrossZero {
+			nCrossZero++
+			doCross = true
+		} else if nCross < maxCross {
 			nCross++
+			doCross = true
+		}
+		if doCross {
 			f, err := os.CreateTemp("", "c11hist*.json")
 			if err == nil {
 				bz, _ := json.Marshal(d.hist)
